@@ -245,14 +245,44 @@ func buildC05(tier string) *core.Plan {
 				// the output file already exists and is longer than what will be written
 				os.WriteFile(filepath.Join(dir, "o", "out."+cs.O), []byte(strings.Repeat("old: content that must not survive\n", 40)), 0o644)
 			}
+			// the same options in every spelling the flag parser accepts, before or after the input
+			var opts []string
+			switch i % 4 {
+			case 0:
+				if cs.F != "" {
+					opts = append(opts, "-f", cs.F)
+				}
+				if cs.O != "" {
+					opts = append(opts, "-o", "o/out."+cs.O)
+				}
+			case 1:
+				if cs.O != "" {
+					opts = append(opts, "--output=o/out."+cs.O)
+				}
+				if cs.F != "" {
+					opts = append(opts, "--format="+cs.F)
+				}
+			case 2:
+				if cs.F != "" {
+					opts = append(opts, "--format", cs.F)
+				}
+				if cs.O != "" {
+					opts = append(opts, "--output", "o/out."+cs.O)
+				}
+			case 3:
+				if cs.F != "" {
+					opts = append(opts, "-f"+cs.F)
+				}
+				if cs.O != "" {
+					opts = append(opts, "-oo/out."+cs.O)
+				}
+			}
 			var args []string
-			if cs.F != "" {
-				args = append(args, "-f", cs.F)
+			if (i/4)%2 == 0 {
+				args = append(append(args, opts...), "in."+cs.InExt)
+			} else {
+				args = append(append(args, "in."+cs.InExt), opts...)
 			}
-			if cs.O != "" {
-				args = append(args, "-o", "o/out."+cs.O)
-			}
-			args = append(args, "in."+cs.InExt)
 			want := cs.F
 			if want == "" && cs.O != "" {
 				want = cs.O
